@@ -57,7 +57,7 @@ def readers (c : Ctx) (T : Trace) (j v : Nat) : List Sexp :=
     (s.creads.filter (fun x => x.2 == v)).map (fun (g, _) =>
       .list [.atom "closure", Sexp.ofNat g, kv "covered" (b (closureReadCovered c.D s.node g v)),
              kv "lambda" (b (readerIsLambda c.D g)), kv "nonlocal" (b (nonlocalInReader c.D g v)),
-             kv "reaching" (b ((c.D.fnsIn s.node).contains g))])
+             kv "reaching" (b ((c.D.fnsIn s.node).contains g)), kv "outside_unseeded" (b (readerOutsideNotSeeded c.D g))])
 
 def liveQuery (c : Ctx) (T : Trace) (i j v : Nat) : Sexp :=
   .list [.atom "live", kv "concl_out" (b ((c.OUT (T.nodeAt i)).contains v)), kv "concl_in" (b ((c.IN (T.nodeAt (i + 1))).contains v)),
